@@ -178,12 +178,18 @@ theorem C01_matrix_unique (N : Net L K) (wf : N.WF) (hw : WellPosed N) (x y : Li
     rw [reportOf_i N x hids hbb, reportOf_i N y hids hbb] at this
     simpa [Net.curOf, hvs] using this
 
-/-- Existence (`det A ≠ 0` for well-posed networks) is not yet proved; it needs the
-homogeneous version of the argument above transported to `N.zeroSources`. -/
-def C01_solvable_statement : Prop :=
-  ∀ (N : Net String ℚ), N.WF → WellPosed N →
-    ∀ x : List ℚ, x.length = N.nodes.length + N.vsIds.length →
-      matVec N.mnaA x = (N.mnaB.map fun _ => (0 : ℚ)) → x = x.map fun _ => (0 : ℚ)
+/-- **C01 (the reported quantities are *the* solution).**  For a well-posed network, whatever
+vector satisfies the matrix equation, the accessors report exactly the values of any
+solution `R` of the circuit equations.  This is the lemma through which every Spec-level
+invariance (C03), linearity (C04) and rewrite (C16) theorem becomes a statement about the
+numbers the code reports. -/
+theorem C01_reported_is_the_solution (N : Net L K) (wf : N.WF) (hw : WellPosed N) (x : List K)
+    (hx : x.length = N.nodes.length + N.vsIds.length) (h : matVec N.mnaA x = N.mnaB)
+    (R : Report L K) (hR : CircuitEqs N R) : (N.reportOf x).AgreeOn N R :=
+  C01_unique N wf.ids_nodup hw _ _ (C01_sound N x wf hx h).2.2 hR
+
+/- Non-singularity of the matrix of a well-posed network (`C01_solvable`, kernel form) and
+   squareness (`C01_square`) are proved in CC/Proofs/Solvable.lean (it imports this file). -/
 
 /-! ### non-vacuity: a concrete network meets the hypotheses -/
 
